@@ -42,6 +42,7 @@ Definition prim_feat (p : prim) : string :=
   | PScale DA _ => "category-default"
   | PScale DB _ => "default-overridden"
   | PANew _ | PALen _ | PAGet _ => "array-op"
+  | PSzLimit _ | PSzTwice _ => "category-default-constant"
   end.
 
 (* (features, literal classes, node count) *)
